@@ -16,7 +16,8 @@ RULE = (
     "Type-correct C99/C11 programs from the semantic generator (vlib/semgen.py; only those gcc -pedantic-errors accepts) and "
     "the preprocessed repository corpus files that gcc compiles: the text produced by CGenerator (both configurations on "
     "alternate programs) must be accepted by gcc and gcc -S -O0 and -O1 output must be byte-identical to the original's after "
-    "dropping the .file/.ident lines. Nothing from pycparser takes part in the comparison. Non-trivial: the regenerated token "
+    "dropping the .file/.ident lines; both texts are compiled in the same canonical layout (one token per line), because gcc "
+    "-O0 places nops according to which statements share a source line. Nothing from pycparser takes part in the comparison. Non-trivial: the regenerated token "
     "sequence differs from the original's (parentheses, declaration splitting) and the program has >= 1 function with >= 3 "
     "statements; distinct by hash of the text. Never built by the typed generator (known findings, replayed separately): identifier "
     "array designators (F26), tag bodies with several declarators (F27), non-plain later for-init declarators (F21), "
@@ -26,11 +27,21 @@ ASSUMPTIONS = ["gcc 12 is deterministic for identical token sequences; equality 
 QUARANTINE = ()
 
 
+def canon(text):
+    """one token per line (directive lines kept): gcc -O0 places `nop`s and numbers
+    labels according to which statements share a source LINE, so two texts are
+    only comparable at -O0 when they are laid out the same way"""
+    items = reflex.split_source(text)
+    if items is None:
+        return text
+    return "\n".join(s for _k, s in items) + "\n"
+
+
 def compare(text, std, rp, d, st, case):
     """returns True when the comparison was carried out (gcc-valid, accepted)"""
     o = os.path.join(d, "o.c")
     with open(o, "w") as f:
-        f.write(text)
+        f.write(canon(text))
     errs = gcc.syntax_check([o], std)[o]
     st.evaluations += 1
     if errs:
@@ -46,7 +57,7 @@ def compare(text, std, rp, d, st, case):
         fail("regen", case, text, "CGenerator raised %s" % type(e).__name__, "genexc:" + type(e).__name__)
     p = os.path.join(d, "g.c")
     with open(p, "w") as f:
-        f.write(g)
+        f.write(canon(g))
     for opt in ("-O0", "-O1"):
         a, ea = gcc.asm(o, std, opt)
         if a is None:
